@@ -6,6 +6,7 @@ import GoNeat.Driver.Operators
 import GoNeat.Driver.Genetics
 import GoNeat.Model.Epoch
 import GoNeat.Spec.PopInv
+import GoNeat.Spec.Placed
 
 namespace GoNeat.Driver
 open Lean
@@ -233,12 +234,16 @@ def hEpoch : Handler := fun j => do
     let c09why : String := if !inputOk then "" else (let q := PopSpec.quotasWhy ap n; if q != "" then q else (let q2 := PopSpec.parentsWhy o p ap; if q2 != "" then q2 else PopSpec.expectedWhy ap))
     let c10why : String := if !inputOk then "" else (let q := PopSpec.championWhy bitEq ap a; if q != "" then q else PopSpec.fittestWhy bitEq p ap a)
     let c03why : String := if !inputOk then "" else PopSpec.innovWhy p a
+    -- C08 over the epoch (Spec/Placed.lean; the model passes it: C08.placedWhy_model): every organism of the new generation is
+    -- the founder of a species founded in this turnover or joined under the nearest compatible representative of `ap`
+    let c08why : String := if !inputOk then "" else PopSpec.placedWhy o ap a
     let structural := a.species.any (fun s => s.orgs.any (·.mutStructBaby))
-    return { corr := corr, spec := c02why == "" && c01why == "" && c09why == "" && c10why == "" && c03why == "",
+    return { corr := corr, spec := c02why == "" && c01why == "" && c09why == "" && c10why == "" && c03why == "" && c08why == "",
              nontrivial := inputOk && a.species.length ≥ 1 && (structural || ap.species.length ≥ 2), cls := cls, detail := detail,
              props := [("C02", c02why == "", c02why, "epoch:popinv"), ("C01", c01why == "", c01why, c01sig),
                        ("C09", c09why == "", c09why, "epoch:quotas"), ("C10", c10why == "", c10why, "epoch:champion"),
-                       ("C03", c03why == "", c03why, "epoch:innov"), ("C17", true, "", "")] }
+                       ("C03", c03why == "", c03why, "epoch:innov"), ("C08", c08why == "", c08why, "epoch:placed"),
+                       ("C17", true, "", "")] }
 
 def hSpawn : Handler := fun j => do
   let inp ← fld j "in"
